@@ -15,7 +15,7 @@ EXPLANATION = (
     'EffectId overflow, the unreachable after the discriminant test, and the documented panic on an id that names no outstanding request '
     '(outside the property\'s input domain); R12.e both bincode deserialisers are built with from_slice, whose length prefixes are '
     'checked against the remaining input; R12.f errors that blame the input (DeserializeEvent, DeserializeOutput, ProcessResponse) are produced only '
-    'before any call that can enter the core, so a rejected input has not been applied. Panics, hangs or allocation inside user Deserialize impls and serde_json are not decided. R12.c resume() touches only the addressed entry and frees it only when it can no longer be resolved (shared with C09 R09.a/b).')
+    'before any call that can enter the core, so a rejected input has not been applied. Panics, hangs or allocation inside user Deserialize impls and serde_json are not decided. R12.c resume() touches only the addressed entry and frees it only when it can no longer be resolved, and every effect — notifications included — is announced under the slab key of its own entry, so a stray response never meets another request (shared with C09 R09.a/b).')
 
 BOUNDARY_ERRORS = ('crux_core::bridge::BridgeError', 'erased_serde::error::Error', 'crux_core::core::resolve::ResolveError',
                    'bincode::error::ErrorKind', 'alloc::boxed::Box<bincode::error::ErrorKind>')
@@ -161,6 +161,13 @@ def check(ctx, rep):
         rep.missing('R12.c', 'ResolveRegistry::resume')
     else:
         c09.check_resume(rep, 'R12.c', 'R12.c', core, res_fn)
+    # ... and the id a stray response carries belongs to at most one effect: every effect (a notification too) is announced under the slab
+    # key of its own entry, so a response addressed to a notification meets that notification's Never entry and nothing else
+    reg_fn = c06.method(core, 'crux_core::bridge::registry::ResolveRegistry', 'register')
+    if reg_fn is None:
+        rep.missing('R12.c', 'ResolveRegistry::register')
+    else:
+        c09.check_register(rep, 'R12.c', core, reg_fn)
     # R12.d
     used = set()
     for f in fns:
